@@ -3,7 +3,7 @@ from .. import cases, monitors, oracles
 from . import _align_common as ac
 
 TITLE = "Alignment results do not depend on the MIP back-end"
-DECIDING = ["M-SOLVER", "M-PART", "M-COVER", "M-EQ", "M-OPT", "M-SESSION"]
+DECIDING = ["M-SOLVER", "M-PART", "M-COVER", "M-EQ", "M-OPT", "M-SESSION", "M-CONCURRENT-KINDS"]
 LEVEL = "exploration"
 RULE = ("every case = one continuum (small to medium: up to 2x40, 3x12, 4x6, 5x4 units; plus a block of 2x~180 and 3x~40 dense "
         "continua with 10 000 - 50 000 candidate unitary alignments, plus a sweep of 3-annotator continua through the point where a "
@@ -11,7 +11,7 @@ RULE = ("every case = one continuum (small to medium: up to 2x40, 3x12, 4x6, 5x4
         "aligned (best and soft) under three solver configurations: cylp importable (CBC), `import cylp` raising "
         "ImportError (GLPK), CBC raising cvxpy.SolverError (fault injection, GLPK); a spy on cvxpy.Problem.solve "
         "proves which solver ran; the order of the two kinds and of the three configurations varies from case to case; continua of at most 12 units are also "
-        "compared with the exact optimum (dynamic programme); 12 % of the small cases are editing sessions (all configurations, an edit of the same continuum "
+        "compared with the exact optimum (dynamic programme); a best and a soft alignment computed at the same time by two user threads under each GLPK configuration; 12 % of the small cases are editing sessions (all configurations, an edit of the same continuum "
         "object, all configurations again); non-trivial = >= 2 units and >= 2 non-empty annotators; distinct by SHA-1")
 ASSUMPTIONS = [
     "the 'failing' configuration is modelled by cvxpy.SolverError raised from Problem.solve when the CBC solver is "
@@ -27,7 +27,43 @@ def plan(tier, seed):
     return ac.std_plan(tier)
 
 
+def check_concurrent_kinds(ctx, case):
+    """Two user threads in one process, one computing best alignments and the other soft alignments (each on its own continuum), while CBC
+    fails / is not importable: every result is the one the same call gives alone under that configuration."""
+    spy, pool = ac.setup(ctx)
+    dissim = pool.get(case["dissim"])
+    conts = [cases.build_continuum(cs) for cs in case["continua"]]
+    with ac.solver_config(spy, case["config"]):
+        try:
+            ref = [float(conts[0].get_best_alignment(dissim).disorder), float(conts[1].get_best_soft_alignment(dissim).disorder)]
+        except Exception as e:
+            ctx.fail_exc(f"concurrent-kinds:sequential-reference-raises:{type(e).__name__}", e, monitor="M-CONCURRENT-KINDS")
+            return
+
+        def work(k):
+            fn = conts[0].get_best_alignment if k == 0 else conts[1].get_best_soft_alignment
+            return [fn(dissim) for _ in range(case["repeat"])]
+        results = ac.concurrent_calls([(lambda k=k: work(k)) for k in (0, 1)])
+    for k, (res, exc) in enumerate(results):
+        ctx.count("M-CONCURRENT-KINDS")
+        kind = "best" if k == 0 else "soft"
+        if exc is not None:
+            ctx.fail_exc(f"concurrent-kinds:{kind}:raises:{type(exc).__name__}", exc, monitor="M-CONCURRENT-KINDS")
+            continue
+        for al in res:
+            pr = monitors.check_partition(conts[k], al, cover=(k == 1))
+            if pr:
+                ctx.fail(f"concurrent-kinds:{kind}:{case['config']}:not-a-{'cover' if k else 'partition'}", {"problems": pr[:4]}, monitor="M-CONCURRENT-KINDS")
+                break
+            if not oracles.close_at_scale(float(al.disorder), ref[k], dissim.delta_empty):
+                ctx.fail(f"concurrent-kinds:{kind}:{case['config']}:disorder-differs-from-the-same-call-alone",
+                         {"concurrent": float(al.disorder), "alone": ref[k]}, monitor="M-CONCURRENT-KINDS")
+                break
+
+
 def check_case(ctx, case):
+    if case.get("concurrent_kinds"):
+        return check_concurrent_kinds(ctx, case)
     if case.get("session"):
         # ONE continuum object and one dissimilarity object: all configurations, an edit of the continuum, all configurations again ...
         continuum = cases.build_continuum(case["continuum"])
@@ -133,6 +169,14 @@ def run(ctx):
         case = {"continuum": {"ann": {a: ann[a] for a in names3}, "family": "near-tie"}, "dissim": big_d[(k + 48) % 2]}
         ctx.begin_case(case)
         ctx.observe("family", "near-tie-sweep")
+        check_case(ctx, case)
+    # a best and a soft alignment computed at the same time by two user threads, under each GLPK configuration
+    for k0 in range(ctx.scale(4, 40)):
+        cs = [cases.gen_continuum(rng, n_annot=3, sizes=[rng.randint(3, 5) for _ in range(3)], labels=cases.LABELS_SMALL,
+                                  family=rng.choice(["dense", "longoverlap", "grid"])) for _ in range(2)]
+        case = {"concurrent_kinds": True, "continua": cs, "dissim": big_d[k0 % 2], "config": ["cbcfail", "glpk", "cbcfail2"][k0 % 3], "repeat": 8}
+        ctx.begin_case(case)
+        ctx.observe("family", "concurrent best + soft")
         check_case(ctx, case)
     for _ in range(2):      # two editing sessions first, whatever the time budget (deciding monitor)
         cs0 = cases.gen_continuum(rng, n_annot=3, max_units=3, allow_empty=False, labels=cases.LABELS_SMALL)
